@@ -61,8 +61,10 @@ def make_query(
     )
     values: List[QueryValue] = [module]
     if qualname is not None:
-        raw_query += " AND qualname LIKE ? || '%'"
-        values.append(qualname)
+        # a literal prefix test: LIKE would ignore case and treat `%` and `_`
+        # in the prefix as wildcards
+        raw_query += " AND substr(qualname, 1, length(?)) == ?"
+        values.extend([qualname, qualname])
     raw_query += """
     GROUP BY
         module, qualname, arg_types, return_type, yield_type
